@@ -9,15 +9,15 @@ package main
 // observed maximum). The maxima of every run are written to the evidence
 // (notes.band_max_ratio). Realistic breaks give ratios of 1e10 and more.
 var limits = map[string]float64{
-	"sym-orthogonality":                   1000,  // 8
-	"sym-residual":                        1000,  // 8.43
+	"sym-orthogonality":                   1000,  // 9
+	"sym-residual":                        1000,  // 8.93
 	"sym-values-vs-reference":             1000,  // 5.67
 	"sym-values-with-vs-without-vectors":  500,   // 3.36
-	"sytrd-reflector-orthogonality":       500,   // 2.8
+	"sytrd-reflector-orthogonality":       500,   // 3
 	"sytrd-reduction-residual":            500,   // 1.51
 	"orgtr-matches-reflector-product":     500,   // 1
 	"latrd-reduced-columns":               500,   // 1.23
-	"latrd-update-matches-similarity":     500,   // 0.77
+	"latrd-update-matches-similarity":     500,   // 0.837
 	"gebrd-reflector-orthogonality":       500,   // 3
 	"gebrd-reduction-residual":            500,   // 1.97
 	"gebrd-singular-values-preserved":     1000,  // 8.62
@@ -25,69 +25,69 @@ var limits = map[string]float64{
 	"ormbr-matches-reflector-product":     500,   // 2
 	"labrd-reduced-rows-and-columns":      500,   // 2.16
 	"labrd-update-matches-transformation": 500,   // 0.574
-	"svd-values-vs-reference":             1000,  // 6.11
+	"svd-values-vs-reference":             1000,  // 6.29
 	"svd-orthogonality":                   2000,  // 16
-	"svd-residual":                        2000,  // 13.5
+	"svd-residual":                        2000,  // 15.1
 	"svd-one-sided-residual":              5000,  // 33.3
 	"svd-values-across-options":           500,   // 2.33
 	"bdsqr-c-gram-preserved":              1000,  // 5.91
-	"bdsqr-c-consistent-with-u":           500,   // 1.5
-	"gehrd-reflector-orthogonality":       500,   // 2
+	"bdsqr-c-consistent-with-u":           500,   // 2
+	"gehrd-reflector-orthogonality":       500,   // 2.67
 	"gehrd-reduction-residual":            500,   // 1.06
 	"orghr-matches-reflector-product":     500,   // 0.6
 	"ormhr-matches-reflector-product":     500,   // 1.6
 	"eig-trace":                           500,   // 2.88
 	"eig-trace-of-square":                 1000,  // 7.47
 	"eig-backward-error":                  20000, // 189
-	"schur-vectors-orthogonality":         2000,  // 16
+	"schur-vectors-orthogonality":         2000,  // 16.5
 	"schur-residual":                      2000,  // 17.6
 	"schur-norm-preserved":                500,   // 4.19
 	"eigvec-unit-norm":                    500,   // 1.5
 	"eigvec-right-residual":               500,   // 3.7
 	"eigvec-left-residual":                500,   // 3.8
 	"eig-values-with-vs-without-vectors":  500,   // 0.00922
-	"trevc-right-residual":                1000,  // 8.09
-	"trevc-left-residual":                 1000,  // 8.09
+	"trevc-right-residual":                1000,  // 8.57
+	"trevc-left-residual":                 1000,  // 8.57
 	"trevc-normalisation":                 500,   // 1
-	"trexc-similarity-residual":           500,   // 2.17
+	"trexc-similarity-residual":           500,   // 2.18
 	"gebal-similarity-residual":           500,   // 0
 	"lanv2-rotation-orthogonal":           1000,  // 8
 	"lanv2-factorisation-residual":        2000,  // 12
 	"gsvd-orthogonality":                  2000,  // 16
-	"gsvp-a-residual":                     500,   // 0.806
+	"gsvp-a-residual":                     1000,  // 5.58
 	"gsvp-b-residual":                     500,   // 3.93
-	"gsvp-a-gram-residual":                500,   // 1.45
-	"gsvp-b-gram-residual":                500,   // 2.46
-	"gsvp-norm-preserved":                 500,   // 1.39
-	"gsvd-a-residual":                     1000,  // 8.47
-	"gsvd-b-residual":                     1000,  // 9.57
+	"gsvp-a-gram-residual":                500,   // 2.21
+	"gsvp-b-gram-residual":                500,   // 2.5
+	"gsvp-norm-preserved":                 500,   // 2.75
+	"gsvd-a-residual":                     2000,  // 16.2
+	"gsvd-b-residual":                     5000,  // 20.1
 	"gsvd-a-gram-residual":                500,   // 3.95
 	"gsvd-b-gram-residual":                2000,  // 15.8
 	"gsvd-values-across-options":          500,   // 0
-	"gghrd-orthogonality":                 1000,  // 8
+	"gghrd-orthogonality":                 1000,  // 8.5
 	"gghrd-a-residual":                    2000,  // 16
 	"gghrd-b-residual":                    2000,  // 16.6
 	"gghrd-norm-preserved":                500,   // 1.37
-	"lartg-rotation-orthogonal":           500,   // 4
+	"lartg-rotation-orthogonal":           500,   // 5
 	"lartg-annihilates":                   500,   // 4.24
 	"las2-determinant":                    500,   // 3.96 (cases whose smaller singular value is in the underflow range are excluded)
-	"las2-frobenius":                      1000,  // 8.12
+	"las2-frobenius":                      1000,  // 8.31
 	"lasv2-rotations-orthogonal":          2000,  // 12
 	"lasv2-diagonalises":                  2000,  // 12
 	"lasv2-agrees-with-las2":              1000,  // 5.97
-	"laev2-trace":                         1000,  // 6.33
+	"laev2-trace":                         1000,  // 7.37
 	"laev2-eigenvector-unit":              500,   // 4
 	"laev2-eigenvector-residual":          1000,  // 5.95
 	"lae2-agrees-with-laev2":              500,   // 0
 	"lasr-matches-plane-rotations":        500,   // 0
 	"lasy2-residual":                      500,   // 2.21
 	"lasy2-xnorm":                         500,   // 0
-	"laln2-residual":                      500,   // 2.36
-	"laln2-perturbed-solution":            500,   // 0
-	"laln2-xnorm":                         500,   // 0
+	"laln2-residual":                      500,   // 2.97
+	"laln2-perturbed-solution":            500,   // 2
+	"laln2-xnorm":                         500,   // 3.89
 	"lag2-determinant-vanishes":           500,   // 2.19
 	"sweep-similarity-residual":           2000,  // 14.2
 	"lahr2-t-matches-reflector-product":   500,   // 0.5
 	"lahr2-y-equals-a-v-t":                500,   // 0.253
-	"lahr2-reduced-columns":               500,   // 0.689
+	"lahr2-reduced-columns":               500,   // 0.728
 }
